@@ -288,7 +288,11 @@ def part_h(chk, thorough):
     progs = [("Display", '#[display("{}", %s)] pub struct S(pub i32);' % deep), ("Display", '#[display("{}", %s)] pub struct S(pub i32);' % bangs), ("Debug", '#[debug("{} {}", _0, %s)] pub struct S(pub i32);' % deep),
              ("Display", 'pub enum S { #[display("{x} {}", %s)] A { x: u8 }, #[display("b")] B }' % refs), ("LowerHex", '#[lower_hex("{:?}", %s)] pub struct S;' % brackets),
              ("Debug", 'pub struct S(#[debug("{}", %s)] pub i32);' % bangs),
-             ("Display", '#[display("{}", { let _f = %s a; 0 })] pub struct S;' % ("|a: u8| " * 700)), ("Display", '#[display("{}", %s)] pub struct S;' % ("x = " * 1500 + "1"))]
+             ("Display", '#[display("{}", { let _f = %s a; 0 })] pub struct S;' % ("|a: u8| " * 700)), ("Display", '#[display("{}", %s)] pub struct S;' % ("x = " * 1500 + "1")),
+             # ... prefix keywords nest to the right like prefix operators do (second reading of 31d1353)
+             ("Display", '#[display("{}", { %s 1u8 })] pub struct S;' % ("return " * 1000)), ("Display", '#[display("{:p}", %s 1u8)] pub struct S;' % ("&mut " * 1000)),
+             ("Display", '#[display("{}", %s { 0 })] pub struct S(pub u8);' % ("if *_0 == 1 { 1 } else " * 1000)),
+             ("Display", '#[display("{}", loop { %s 1u8 })] pub struct S;' % ("break " * 1000))]
     eng = CompileEngine("C18H", mode="check", per_bin=1)
     eng._write_crate()
     for i, (d, item) in enumerate(progs):
@@ -306,7 +310,7 @@ def part_h(chk, thorough):
             chk.outcome("deep-nesting-compiles")
         else:
             chk.outcome("deep-nesting-diagnosed")
-    chk.part("h_deep_nesting", programs=len(progs), shapes=["1000 nested parentheses", "3000 prefix `!`", "2000 prefix `&`", "600 nested brackets", "700 nested closures", "1500 chained assignments"], oracle="one rustc process per program: it must end by itself (ok or diagnostics), not by a signal")
+    chk.part("h_deep_nesting", programs=len(progs), shapes=["1000 nested parentheses", "3000 prefix `!`", "2000 prefix `&`", "600 nested brackets", "700 nested closures", "1500 chained assignments", "1000 `return`", "1000 `&mut`", "1000 `else if`", "1000 `break`"], oracle="one rustc process per program: it must end by itself (ok or diagnostics), not by a signal")
 
 
 def part_g(chk, thorough):
